@@ -467,6 +467,23 @@ def const_program(case):
             f'  %1 = "snax.layout_cast"(%0) : (memref<{sh}x{el}, "L1">) -> memref<{sh}x{el}, {tsl}, "L1">\n'
             f'  "test.op"(%1) : (memref<{sh}x{el}, {tsl}, "L1">) -> ()\n}}'
         )
+    elif case["kind"] == "const-subview":
+        # the constant is also read through a subview (its first row / first element block) by another consumer
+        l1 = f'memref<{sh}x{el}, "L1">'
+        l1t = f'memref<{sh}x{el}, {tsl}, "L1">'
+        strides = [1] * len(shape)
+        for i in range(len(shape) - 2, -1, -1):
+            strides[i] = strides[i + 1] * shape[i + 1]
+        first = 1 if shape[0] > 1 else 0
+        vshape = [1] + shape[1:]
+        vty = f'memref<{"x".join(map(str, vshape))}x{el}, strided<[{", ".join(map(str, strides))}], offset: {first * strides[0]}>, "L1">'
+        offs = ", ".join([str(first)] + ["0"] * (len(shape) - 1))
+        src = (
+            f'builtin.module {{\n  %0 = arith.constant dense<{nested(vals, shape)}> : {l1}\n'
+            f'  %s = memref.subview %0[{offs}] [{", ".join(map(str, vshape))}] [{", ".join(["1"] * len(shape))}] : {l1} to {vty}\n'
+            f'  "test.op"(%s) {{view_of_constant}} : ({vty}) -> ()\n'
+            f'  %1 = "snax.layout_cast"(%0) : ({l1}) -> {l1t}\n  "test.op"(%1) : ({l1t}) -> ()\n}}'
+        )
     elif case["kind"] in ("const-two-layouts", "const-chain"):
         # one constant, two *different* target layouts: two casts of it (the same weights feeding two accelerator operations
         # that ask for different tilings), or a chain of two casts
@@ -634,7 +651,11 @@ def run_const(case, out):
     out["runs"] = out["zero_fault_runs"] = 1
     eb = {"i8": 1, "i32": 4}[case["el"]]
     t = compat.text(S)
-    consumers = [o for o in S.walk() if isinstance(o, test.TestOp)]
+    bad_view = view_consistency(S)
+    if bad_view:
+        out.update(status="violation", oracle="view-layout", message=bad_view)
+        return out
+    consumers = [o for o in S.walk() if isinstance(o, test.TestOp) and "view_of_constant" not in o.attributes]
     try:
         for n, c in enumerate(consumers):
             got = logical_values(c.operands[0], S, shape, eb)
@@ -662,7 +683,7 @@ def gen_case(rng, tier):
         depth = [rng.choice([1, 2, 2, 3]) for _ in range(rank)]
         tb = [[rng.choice([1, 2, 2, 3, 4]) for _ in range(depth[d])] for d in range(rank)]
         return {"fam": "const", "tb": tb, "steps": gen_steps(rng, tb, pad=False), "steps2": gen_steps(rng, tb, pad=False), "el": rng.choice(["i8", "i32"]),
-                "kind": rng.choice(["const", "const", "const-two-layouts", "const-chain", "global", "global", "global-two-gets", "global-two-casts", "global-two-funcs", "global-two-layouts", "global-chain", "global-msc-two-layouts"]), "mul": rng.choice([1, 3, 7])}
+                "kind": rng.choice(["const", "const", "const-two-layouts", "const-chain", "const-subview", "global", "global", "global-two-gets", "global-two-casts", "global-two-funcs", "global-two-layouts", "global-chain", "global-msc-two-layouts"]), "mul": rng.choice([1, 3, 7])}
     accum = rng.choice([0, 0, 0, 0.3])
     uninit = rng.choice([0, 0, 0, 0.4])
     dyn = rng.random() < 0.15
